@@ -144,3 +144,30 @@ def op_args(kind):
 def _force_on(a):
     # DeviceState.OFF / ThermostatSwing.OFF ... are all truthy enum members, so every given setting counts as requested
     return a
+
+
+# -- equivalent forms of a text argument --------------------------------------------------------------------------
+class Text(str):
+    """A plain str subclass (what a caller's own wrapper type for clock strings, names or hex text looks like)."""
+    __slots__ = ()
+
+
+_ENUMS = {}
+
+
+def text_form(value: str, form: str):
+    """The same text as a str, as an instance of a str subclass, or as a member of a (str, Enum) class."""
+    if form == "subclass":
+        return Text(value)
+    if form == "enum-member":
+        import enum
+        cls = _ENUMS.get(value)
+        if cls is None:
+            if len(_ENUMS) > 512:
+                _ENUMS.clear()
+            cls = _ENUMS[value] = enum.Enum("Preset", {"CHOICE": value}, type=str)
+        return cls.CHOICE
+    return value
+
+
+TEXT_FORMS = ["subclass", "enum-member"]
